@@ -279,6 +279,20 @@ def generate(rng, tier):
                     ("3 # march 2020", "en"), ("12:30 est ŉŉŉ", "en"), ("5 mart İİİ", "tr"), ("ııı 5 mart", "tr"),
                     ("ßß 12:30 est", "en"), ("ΐ 12:30 est", "en"), ("ŉŉŉ 12:30 est", "en")]:
         cases.append(mk(l, lang, "probe"))
+    # indentation and trailing blanks combined with a month / zone word and a comment (offsets of the language
+    # parsers are taken from a copy of the line: the copy must cover the same prefix of the line)
+    for l, lang in [("  12 march 2020 # note", "en"), ("   3 şubat 2021   # not", "tr"), ("\t5 may # june", "en"),
+                    ("    jan 28, 2019 - 2 days   # jan", "en"), ("  12:30 est # zone", "en"), ("   12 march   ", "en"),
+                    ("  x = 4 mart #", "tr")]:
+        cases.append(mk(l, lang, "indent-comment"))
+    for _ in range(12 if tier == "quick" else 150):
+        lang = rng.choice(["en", "tr"])
+        mword = rng.choice(["march", "may", "dec", "january"] if lang == "en" else ["mart", "şubat", "aralık", "ocak"])
+        core = rng.choice(["%d %s 2020", "%d %s", "%s %d, 2021"] if lang == "en" else ["%d %s 2020", "%d %s"])
+        d = rng.randint(1, 28)
+        core = core % ((d, mword) if core.startswith("%d") else (mword, d))
+        cases.append(mk(" " * rng.randint(1, 5) + core + " " * rng.randint(0, 3) + "#" + rng.choice(["", " note", " " + mword, " 5 + 5"]),
+                        lang, "indent-comment"))
     # month / zone words after text whose case image changes length (known finding C17-casemap)
     for l, lang in [("ıııı est 12:30", "en"), ("İİİ 5 march 2020", "en"), ("İİ march 5", "en"), ("ǰǰ est 12:30", "en"),
                     ("İİİ 5 mart", "tr"), ("KK 12:30 est", "en"), ("ſſſ gmt 10:00", "en")]:
